@@ -722,6 +722,9 @@ def normal_form_mc(rep: Report, pid: str, thorough: bool) -> None:
         # four variables, alternatives that become comparable only after elimination (Fam3)
         states4 = _nf_extra(rep, "ProjSpec", "SelFour", ["Projections", "ResultNormal"], dump=True, vars_='{"p", "r", "q", "t"}', dom="{1, 2}")
         _nf_replay(rep, pid, states4, vars_=("p", "r", "q", "t"), dom=(1, 2))
+        # three variables, two atoms on two of them: conjunctions of alternatives whose parts cancel after elimination (Fam4)
+        states5 = _nf_extra(rep, "ProjSpec", "SelFive", ["Projections", "ResultNormal"], dump=True, vars_='{"p", "q", "r"}', dom="{1, 2, 3}")
+        _nf_replay(rep, pid, states5, vars_=("p", "q", "r"), dom=(1, 2, 3))
         return
     tmp = tempfile.mkdtemp(prefix="verif_nf_")
     try:
